@@ -7,7 +7,7 @@ CONSTANTS
   DeltaPairs = {}
   MaxBlocks = 10
   DataLoss = {}
-  F3cRepaired = FALSE
+  F3cRepaired = TRUE
   F3abRepaired = FALSE
   F3Known = TRUE
 INVARIANTS ConformState ConformFailBacks ConformClosedOut ConformResolvers ConformCalls ConformSlots
